@@ -3,6 +3,7 @@ package main
 // Path exploration driver: decisions, path condition, obligations, solver portfolio.
 
 import (
+	"runtime/debug"
 	"fmt"
 	"math/big"
 	"os"
@@ -436,7 +437,11 @@ func (r *HarnessRun) fullModel(res SolveResult, wasFull bool) map[string]*big.In
 	return nw
 }
 
+// replayed: called after consuming one decision of the replay prefix.  The path condition has
+// grown without a solver call, so the current witness is no longer known to satisfy it; when the
+// prefix is exhausted the witness that was stored with the work item becomes valid.
 func (r *HarnessRun) replayed() {
+	r.witness = nil
 	if r.pos == len(r.prefix) {
 		r.witness = r.startWit
 	}
@@ -650,6 +655,10 @@ func modelStrings(m map[string]*big.Int) map[string]string {
 }
 
 func (r *HarnessRun) addFinding(kind, label, pos string, model map[string]*big.Int) {
+	if os.Getenv("GOSMT_DEBUG") != "" {
+		fmt.Fprintf(os.Stderr, "DEBUG finding %s %q at %s decisions=%v prefix=%v pos=%d model=%v pc=%d\n", kind, label, pos, r.decisions, r.prefix, r.pos, model, len(r.pc))
+		debug.PrintStack()
+	}
 	key := kind + "|" + label + "|" + pos
 	lens := map[string]int{}
 	for k, v := range r.lens {
